@@ -107,6 +107,8 @@ def run(ctx):
                 prev_end = max(prev_end or 0, b); prev_body = body
             if len(edits) > 12: edits = rng.sample(edits, 12)
             for (p, text) in edits:
+                # never split a backslash-newline pair (a span that ends in a backslash is defect D31/D32: the position after it is no gap)
+                if 0 < p <= len(s) and s[p - 1] == '\\': continue
                 s2 = s[:p] + text + s[p:]
                 cases.append(('C14', [p, len(text)], s, [('parse', {}, s), ('parse', {}, s2)]))
     if ctx.get('replay'):
